@@ -1,7 +1,8 @@
 (* C14, token grammar: every command node of an accepted file is written as a
    sequence of statements of Spec/JsSyntax.v. *)
 From Soy Require Import Model.Bytes Model.Num Model.Values Model.Outcome Model.Ast Model.JsGen Generated.Tables
-  Spec.JsSyntax Spec.JsShape Proofs.JsWfBase Proofs.JsWfFrame Proofs.JsWfMonad Proofs.JsWfExpr.
+  Spec.JsSyntax Spec.JsShape Proofs.JsWfSplitBase Proofs.JsWfSplitNum Proofs.JsWfSplit Proofs.JsWfTail Proofs.JsWfLeaf
+  Proofs.JsWfBase Proofs.JsWfFrame Proofs.JsWfMonad Proofs.JsWfExpr.
 From Coq Require Import ZifyBool ZifyNat ZifyN Lia.
 Open Scope N_scope.
 #[local] Arguments assoc_s {A} k l : simpl never.
@@ -197,7 +198,7 @@ Proof.
   unfold operand_text. intro H. destruct (text_toks t) as [ts|] eqn:Et; [|discriminate].
   destruct (js_run md ts (MWant false) []) as [[[m1 s1] d1]|] eqn:Er; [|discriminate].
   destruct m1; try discriminate. destruct isint; try discriminate. destruct s1; try discriminate. destruct d1; try discriminate.
-  eapply emits_toks1; [|apply expr_toks_run; exact Er]. cbn [lex_chunk]. unfold text_toks in Et.
+  eapply emits_toks1; [|apply expr_toks_run; exact Er|apply text_okb_tail; exact H]. cbn [lex_chunk]. unfold text_toks in Et.
   destruct (lex_text 0 LNormal t) as [[ts' m']|]; [|discriminate]. destruct m'; try discriminate. inversion Et; subst. reflexivity.
 Qed.
 
@@ -240,7 +241,7 @@ Proof.
     assert (P2 : exists c2, ext st1 st2 c2 /\ j_scope st2 = j_scope st1 /\ j_buf st2 = j_buf st1 /\ j_called st2 = j_called st1 /\
                  forall i s, exists i', emits md c2 (MHave i) (KCall :: s) (MHave i') (KCall :: s) []).
     { destruct (bstr_eqb name n_truncate && Nat.eqb (List.length args) 1); jinv H2.
-      - eexists. split; [ext_build|]. proj. repeat (split; [reflexivity|]). intros i s. exists false. norm_app. eapply emits_toks1; [vm_compute; reflexivity|reflexivity].
+      - eexists. split; [ext_build|]. proj. repeat (split; [reflexivity|]). intros i s. exists false. norm_app. eapply emits_toks1; [vm_compute; reflexivity|reflexivity|tail_solve].
       - exists []. split; [apply ext_refl; reflexivity|]. repeat (split; [reflexivity|]). intros i s. exists i. apply emits_nil. }
     destruct P2 as (c2 & E2 & S2 & B2 & K2 & R2).
     match type of H4 with _ _ _ ?sa = _ =>
@@ -603,7 +604,7 @@ Proof.
       destruct (IH sa st' Hl ltac:(proj; congruence) ltac:(unfold called_ok in *; proj; assumption) H5) as (c5 & E5 & S5 & B5 & K5 & R5) end. proj.
     eexists. split; [eapply ext_trans; [|exact E5]; ext_build|]. split; [congruence|]. split; [congruence|]. split; [exact K5|].
     intros m d s Hm. norm_app2.
-    eapply emits_cons0; [ssingle|]. eapply emits_cons0; [eapply emits_toks1; [vm_compute; reflexivity|]; destruct Hm as [->|[e ->]]; reflexivity|].
+    eapply emits_cons0; [ssingle|]. eapply emits_cons0; [eapply emits_toks1; [vm_compute; reflexivity|destruct Hm as [->|[e ->]]; reflexivity|tail_solve]|].
     eapply emits_app0; [apply C|]. eapply emits_cons0; [ssingle|]. eapply emits_cons0; [ssingle|].
     pose proof (R5 (MStmt false) d s ltac:(right; eauto)) as Q. destruct vs; exact Q.
 Qed.
@@ -630,7 +631,7 @@ Proof.
       - jinv H2. proj. eexists. split; [ext_build|]. repeat (split; [reflexivity|]).
         assert (d = false). { cbn [filter is_default_case List.length] in Hcnt. destruct d; [cbn in Hcnt; lia|reflexivity]. } subst d.
         intros m s Hm. eapply emits_app0; [apply R1; exact Hm|]. norm_app2.
-        eapply emits_cons0; [ssingle|]. eapply emits_cons0; [eapply emits_toks1; [vm_compute; reflexivity|]; destruct Hm as [->|[e ->]]; reflexivity|]. ssingle.
+        eapply emits_cons0; [ssingle|]. eapply emits_cons0; [eapply emits_toks1; [vm_compute; reflexivity|destruct Hm as [->|[e ->]]; reflexivity|tail_solve]|]. ssingle.
       - jinv H2. exists []. split; [apply ext_refl; reflexivity|]. repeat (split; [reflexivity|]). intros m s Hm. rewrite app_nil_r. apply R1. exact Hm. }
     destruct P2 as (c2 & E2 & S2 & B2 & K2 & R2).
     ihs Hbody H4.
@@ -643,7 +644,7 @@ Proof.
     intros m s Hm. destruct (C false (KBlock (BSwitch d1) :: s)) as (e4 & Q4).
     destruct (R7 (MStmt false) s ltac:(right; eauto)) as (m' & d' & Hm' & Q7). exists m', d'. split; [exact Hm'|].
     rewrite <- !app_assoc. rewrite (app_assoc c1 c2). eapply emits_app0; [apply R2; exact Hm|]. eapply emits_app0; [exact Q4|]. norm_app2.
-    eapply emits_cons0; [ssingle|]. eapply emits_cons0; [eapply emits_toks1; [vm_compute; reflexivity|reflexivity]|]. eapply emits_cons0; [ssingle|]. exact Q7.
+    eapply emits_cons0; [ssingle|]. eapply emits_cons0; [eapply emits_toks1; [vm_compute; reflexivity|reflexivity|tail_solve]|]. eapply emits_cons0; [ssingle|]. exact Q7.
 Qed.
 
 Lemma post_switch v cases : oke v = true -> forallb (case_shape oke (stmt_chk fmt fk)) cases = true ->
@@ -665,7 +666,7 @@ Proof.
   intros e s. destruct (R6 MSwStart s ltac:(left; reflexivity)) as (m' & d' & Hm' & Q6). exists false. norm_app2.
   eapply emits_cons0; [ssingle|]. eapply emits_cons0; [ssingle|]. eapply emits_app0; [apply C|]. eapply emits_cons0; [ssingle|]. eapply emits_cons0; [ssingle|].
   eapply emits_app0; [exact Q6|]. eapply emits_cons0; [ssingle|]. eapply emits_cons0; [|ssingle].
-  eapply emits_toks1; [vm_compute; reflexivity|]. destruct Hm' as [->|[e' ->]]; reflexivity.
+  eapply emits_toks1; [vm_compute; reflexivity| |tail_solve]. destruct Hm' as [->|[e' ->]]; reflexivity.
 Qed.
 
 (* ---- call ---- *)
@@ -681,7 +682,7 @@ Qed.
 Lemma dname_run nm cl s : dname_okb nm = true -> emits md [CName nm] (MWant cl) s (MHave false) s [].
 Proof.
   unfold dname_okb. intro H. destruct (lex_name nm) as [ts|] eqn:El; [|discriminate]. destruct ts as [|t ts]; [discriminate|]. destruct t; try discriminate.
-  eapply emits_toks1; [cbn [lex_chunk]; rewrite El; reflexivity|].
+  eapply emits_toks1; [cbn [lex_chunk]; rewrite El; reflexivity| |tail_solve].
   unfold lex_name in El. destruct (forallb ident_ok (split_dots [] nm)); [|discriminate]. inversion El as [E2]. clear El.
   destruct (split_dots [] nm) as [|p [|q r]]; [discriminate E2| |].
   - cbn [name_tokens] in *. injection E2 as E3 E4. rewrite E3. reflexivity.
@@ -694,7 +695,7 @@ Definition accC (acc : list chunk) (m' : mode) : Prop := forall cl s, emits md a
 Lemma key_run key s : ident_ok key = true -> forall cl, emits md [CName key; CText t_colon_sp] (MKey cl) (KObj :: s) (MWant false) (KObj :: s) [].
 Proof.
   intros Hk cl. apply (emits_cons0 md _ _ _ _ (seq1 PColon None (MWant false)) (KObj :: s)); [|esingle].
-  eapply emits_toks1; [cbn [lex_chunk]; rewrite (lex_name_ident _ Hk); reflexivity|].
+  eapply emits_toks1; [cbn [lex_chunk]; rewrite (lex_name_ident _ Hk); reflexivity| |tail_solve].
   destruct (tok_of_ident_cases key) as [(k & ->)| ->]; reflexivity.
 Qed.
 
@@ -733,7 +734,7 @@ Proof.
         assert (A0 : accC ac (MHave false))
           by (intros cl s; destruct (Hacc1 cl s) as (c & Q); eapply emits_app0; [exact Q|];
               apply (emits_cons0 md _ _ _ _ (seq1 PColon None (MWant false)) (KObj :: KCall :: s)); [|eapply emits_cons0; [esingle|esingle]];
-              eapply emits_toks1; [cbn [lex_chunk]; rewrite (lex_name_ident _ Hkey); reflexivity|]; destruct (tok_of_ident_cases key) as [(k & ->)| ->]; reflexivity);
+              eapply emits_toks1; [cbn [lex_chunk]; rewrite (lex_name_ident _ Hkey); reflexivity|destruct (tok_of_ident_cases key) as [(k & ->)| ->]; reflexivity|tail_solve]);
         destruct (IH false ac (MHave false) sa st' res Hl A0 ltac:(cbv iota; eexists; reflexivity) ltac:(proj; assumption) ltac:(unfold called_ok in *; proj; assumption) ltac:(proj; exact Hb) H6)
           as (cs & m1 & E & C & A & Hm1 & S & B & K)
       end.
@@ -764,7 +765,7 @@ Proof.
         destruct (params_post params true ac (MKey true) st1 sb ps' Hps A0 eq_refl ltac:(congruence) K1 ltac:(congruence) H2) as (c2 & m1 & E2 & C2 & A2 & Hm1 & S2 & B2 & K2)
       end.
       exists c2, false. split; [exact E2|]. split; [exact C2|]. split; [|auto].
-      intros cl s. eapply emits_app0; [apply A2|]. eapply emits_toks1; [vm_compute; reflexivity|]. destruct Hm1 as [->|[j ->]]; reflexivity. }
+      intros cl s. eapply emits_app0; [apply A2|]. eapply emits_toks1; [vm_compute; reflexivity| |tail_solve]. destruct Hm1 as [->|[j ->]]; reflexivity. }
   destruct P2 as (c2 & i1 & E2 & C2 & C1 & S2 & B2 & K2).
   apply bind_inv in H. destruct H as (bn & st3 & H3 & H). jinv H3. apply bind_inv in H. destruct H as (u4 & st4 & H4 & H5). jinv H4. units.
   match type of H5 with note_called _ _ ?sa = _ => destruct (note_called_inv o _ _ sa _ _ H5 Himp ltac:(unfold called_ok in *; proj; assumption)) as (O5 & S5 & B5 & K5) end. proj.
@@ -850,9 +851,9 @@ Proof.
           split; [exact Sr|]. split; [congruence|]. split; [exact Kr|].
           intros m d s Hm. destruct (Cb false (KBlock (BSwitch d) :: s)) as (eb & Qb). destruct (Rr (MStmt false) d s ltac:(right; eauto)) as (m' & Hm' & Qr).
           exists m'. split; [exact Hm'|]. norm_app2.
-          eapply emits_cons0; [ssingle|]. eapply emits_cons0; [eapply emits_toks1; [vm_compute; reflexivity|]; destruct Hm as [->|[e0 ->]]; reflexivity|].
+          eapply emits_cons0; [ssingle|]. eapply emits_cons0; [eapply emits_toks1; [vm_compute; reflexivity|destruct Hm as [->|[e0 ->]]; reflexivity|tail_solve]|].
           eapply emits_cons0; [apply emits_num_Z|]. eapply emits_cons0; [ssingle|]. eapply emits_cons0; [ssingle|].
-          eapply emits_app0; [exact Qb|]. eapply emits_cons0; [ssingle|]. eapply emits_cons0; [eapply emits_toks1; [vm_compute; reflexivity|reflexivity]|].
+          eapply emits_app0; [exact Qb|]. eapply emits_cons0; [ssingle|]. eapply emits_cons0; [eapply emits_toks1; [vm_compute; reflexivity|reflexivity|tail_solve]|].
           eapply emits_cons0; [ssingle|]. exact Qr. }
       match type of G6 with _ _ ?sa = Ok (tt, ?sb) =>
         destruct (Pc cases sa sb ltac:(assumption) ltac:(proj; congruence) ltac:(unfold called_ok in *; proj; assumption) ltac:(proj; congruence) G6) as (c6 & E6 & S6 & B6 & K6 & R6) end. proj.
@@ -864,7 +865,7 @@ Proof.
       + intros e s. destruct (R6 MSwStart false s ltac:(left; reflexivity)) as (m6 & Hm6 & Q6). destruct (C9 false (KBlock (BSwitch true) :: s)) as (e9 & Q9). exists false.
         norm_app2. eapply emits_cons0; [ssingle|]. eapply emits_cons0; [ssingle|]. eapply emits_app0; [apply C|]. eapply emits_cons0; [ssingle|]. eapply emits_cons0; [ssingle|].
         eapply emits_app0; [exact Q6|]. eapply emits_cons0; [ssingle|].
-        eapply emits_cons0; [eapply emits_toks1; [vm_compute; reflexivity|]; destruct Hm6 as [->|[e6 ->]]; reflexivity|]. eapply emits_cons0; [ssingle|].
+        eapply emits_cons0; [eapply emits_toks1; [vm_compute; reflexivity|destruct Hm6 as [->|[e6 ->]]; reflexivity|tail_solve]|]. eapply emits_cons0; [ssingle|].
         eapply emits_app0; [exact Q9|]. eapply emits_cons0; [ssingle|]. eapply emits_cons0; [ssingle|]. ssingle.
     - (* a plural case outside a plural: nothing is written *) jinv H1. exists []. apply spost_nil; assumption.
     - jinv H1. exists []. apply spost_nil; assumption.
@@ -969,9 +970,9 @@ Proof.
         split; [exact Sr|]. split; [congruence|]. split; [exact Kr|].
         intros m d s Hm. destruct (Cb false (KBlock (BSwitch d) :: s)) as (eb & Qb). destruct (Rr (MStmt false) d s ltac:(right; eauto)) as (m' & Hm' & Qr).
         exists m'. split; [exact Hm'|]. norm_app2.
-        eapply emits_cons0; [ssingle|]. eapply emits_cons0; [eapply emits_toks1; [vm_compute; reflexivity|]; destruct Hm as [->|[e0 ->]]; reflexivity|].
+        eapply emits_cons0; [ssingle|]. eapply emits_cons0; [eapply emits_toks1; [vm_compute; reflexivity|destruct Hm as [->|[e0 ->]]; reflexivity|tail_solve]|].
         eapply emits_cons0; [apply emits_num_N|]. eapply emits_cons0; [ssingle|]. eapply emits_cons0; [ssingle|].
-        eapply emits_app0; [exact Qb|]. eapply emits_cons0; [ssingle|]. eapply emits_cons0; [eapply emits_toks1; [vm_compute; reflexivity|reflexivity]|].
+        eapply emits_app0; [exact Qb|]. eapply emits_cons0; [ssingle|]. eapply emits_cons0; [eapply emits_toks1; [vm_compute; reflexivity|reflexivity|tail_solve]|].
         eapply emits_cons0; [ssingle|]. exact Qr. }
     match type of G6 with _ _ _ ?sa = Ok (tt, ?sb) =>
       destruct (Pc cases 0 sa sb IHc ltac:(proj; congruence) ltac:(unfold called_ok in *; proj; assumption) ltac:(proj; congruence) G6) as (c6 & E6 & S6 & B6 & K6 & R6) end. proj.
@@ -980,7 +981,7 @@ Proof.
     + intros e s. destruct (R6 MSwStart false s ltac:(left; reflexivity)) as (m6 & Hm6 & Q6). exists false.
       norm_app2. eapply emits_cons0; [ssingle|]. eapply emits_cons0; [ssingle|]. eapply emits_app0; [apply C|]. eapply emits_cons0; [ssingle|]. eapply emits_cons0; [ssingle|].
       eapply emits_app0; [exact Q6|]. eapply emits_cons0; [ssingle|]. eapply emits_cons0; [|ssingle].
-      eapply emits_toks1; [vm_compute; reflexivity|]. destruct Hm6 as [->|[e6 ->]]; reflexivity.
+      eapply emits_toks1; [vm_compute; reflexivity| |tail_solve]. destruct Hm6 as [->|[e6 ->]]; reflexivity.
 Qed.
 
 Lemma parts_post body ps : Forall mq_ok body -> forall st st', scope_ok (j_scope st) -> called_ok fmt st -> buf_ok (j_buf st) ->
